@@ -643,7 +643,7 @@ func initExterns() {
 			case "GetChildren":
 				e.bindResult(s, x, e.tree.children(e, s, cs, ctx))
 			case "GetText":
-				e.bindResult(s, x, Value{App("tok.ctxtext", SStr, ctx)})
+				e.bindResult(s, x, Value{tokText(s, App("tok.ctxtext", SStr, ctx))})
 			}
 			return nil, true
 		}
@@ -739,7 +739,7 @@ func initExterns() {
 	for _, recvT := range []string{"CommonToken", "BaseToken"} {
 		externTable["(*"+antlrPkg+"."+recvT+").GetText"] = ret(func(e *Engine, s *State, x ssa.CallInstruction, args []Value) Value {
 			e.safe(s, x, "recv", Ne(args[0][0], Zero))
-			return Value{App("tok.text", SStr, args[0][0])}
+			return Value{tokText(s, App("tok.text", SStr, args[0][0]))}
 		})
 		externTable["(*"+antlrPkg+"."+recvT+").GetTokenSource"] = ret(func(e *Engine, s *State, x ssa.CallInstruction, args []Value) Value {
 			e.safe(s, x, "recv", Ne(args[0][0], Zero))
@@ -750,7 +750,7 @@ func initExterns() {
 		})
 	}
 	invokeTable["("+antlrPkg+".Token).GetText"] = func(e *Engine, s *State, x ssa.CallInstruction, recv Value, args []Value) {
-		e.bindResult(s, x, Value{App("tok.text", SStr, recv[1])})
+		e.bindResult(s, x, Value{tokText(s, App("tok.text", SStr, recv[1]))})
 	}
 	invokeTable["("+antlrPkg+".Token).GetTokenSource"] = func(e *Engine, s *State, x ssa.CallInstruction, recv Value, args []Value) {
 		src := App("tok.source", SInt, recv[1])
@@ -768,7 +768,7 @@ func initExterns() {
 	}
 	externTable["(*"+antlrPkg+".TerminalNodeImpl).GetText"] = ret(func(e *Engine, s *State, x ssa.CallInstruction, args []Value) Value {
 		e.safe(s, x, "recv", Ne(args[0][0], Zero))
-		return Value{App("tok.text", SStr, App("tok.symbol", SInt, args[0][0]))}
+		return Value{tokText(s, App("tok.text", SStr, App("tok.symbol", SInt, args[0][0])))}
 	})
 	externTable["(*"+antlrPkg+".TerminalNodeImpl).GetSymbol"] = ret(func(e *Engine, s *State, x ssa.CallInstruction, args []Value) Value {
 		e.safe(s, x, "recv", Ne(args[0][0], Zero))
@@ -785,7 +785,7 @@ func initExterns() {
 		e.bindResult(s, x, Value{e.tokenTag(), sym})
 	}
 	invokeTable["("+antlrPkg+".ParseTree).GetText"] = func(e *Engine, s *State, x ssa.CallInstruction, recv Value, args []Value) {
-		e.bindResult(s, x, Value{App("tok.nodetext", SStr, recv[0], recv[1])})
+		e.bindResult(s, x, Value{tokText(s, App("tok.nodetext", SStr, recv[0], recv[1]))})
 	}
 	// ---- cgo string conversion (identity on NUL-free text)
 	externTable[repoMod+"/cmd._Cfunc_GoString"] = ret(func(e *Engine, s *State, x ssa.CallInstruction, args []Value) Value {
@@ -886,4 +886,12 @@ func (e *Engine) renderTemplate(s *State, txt *Term, data Value) *Term {
 	}
 	parts = append(parts, Str(src[last:]))
 	return Concat(parts...)
+}
+
+// tokText: the text of a token or parse-tree node, marked as such: the uninterpreted predicate
+// istoktext holds exactly for strings obtained from the lexer (used by contracts that say a model
+// attribute is the text the author wrote, not something computed from it).
+func tokText(s *State, t *Term) *Term {
+	s.assume(App("istoktext", SBool, t))
+	return t
 }
